@@ -35,7 +35,7 @@ int main(int argc, char** argv) {
     sc.run = make_run(v, kGated);
     sc.gen = [v]() { return gen_history(v, kGated); };
     bool str = v.name.find("_str") != std::string::npos;
-    sc.quick_cases = kGated ? 4000 : (str ? 4000 : 8000);
+    sc.quick_cases = kGated ? 15000 : (str ? 20000 : 40000);
     sc.thorough_cases = kGated ? 150000 : (str ? 150000 : 400000);
     sc.max_size = 100;
     if (!str) {
@@ -46,7 +46,7 @@ int main(int argc, char** argv) {
       };
       Plan pl;
       if (!v.is_map) pl = thorough ? Plan{5, 4, 7, 6} : Plan{4, 3, 6, 5}; // 14 / 24 shapes
-      else if (!kGated) pl = thorough ? Plan{5, 4, 7, 5} : Plan{4, 3, 5, 4}; // 17 / 30 shapes
+      else if (!kGated) pl = thorough ? Plan{5, 4, 7, 5} : Plan{4, 3, 6, 4}; // 17 / 30 shapes
       else pl = thorough ? Plan{4, 3, 6, 5} : Plan{3, 2, 5, 4}; // 17 / 33 shapes
       sc.enumerate = [v, pl](Enum& e) {
         uint64_t block = 0;
